@@ -3,6 +3,7 @@ from __future__ import annotations
 
 import math
 import random
+import warnings
 
 import numpy as np
 
@@ -234,6 +235,55 @@ def one_case(ctx, index: int, rng: random.Random):
                      "kwargs": desc["kwargs"]})
 
 
+def big_square_case(ctx, index: int, rng: random.Random):
+    """Integer weights (event counts scaled up, nanoseconds) whose bins fit 2**53 comfortably while the sums of their squares leave 64-bit
+    integers: the squared errors are those sums (rounded once into a float type), or the request is refused - never a wrapped number."""
+    import physt
+    from fractions import Fraction
+
+    rec = ctx.rec
+    rec.mon("C01.h1.post")
+    nb = rng.randint(1, 4)
+    edges = np.arange(nb + 1, dtype=float)
+    n = rng.choice([1, 2, 5, 2500])
+    w0 = rng.choice([5_000_000_000, 2**32, 3_037_000_500, 4_000_000_000]) if n < 100 else rng.choice([10**8, 2 * 10**8])
+    data = np.asarray([rng.randrange(nb) + 0.5 for _ in range(n)])
+    wts = np.asarray([w0 + rng.randint(0, 3) for _ in range(n)], dtype=np.int64)
+    dt = rng.choice([None, float, "float64", "int64"])
+    form = rng.choice(["h1", "fill_n"])
+    exp = [sum(Fraction(int(w)) ** 2 for x, w in zip(data, wts) if int(x) == k) for k in range(nb)]
+    fits_int = max(exp) < 2**63
+    desc = {"n": n, "weight": w0, "dtype": str(dt), "form": form, "bins": nb}
+    try:
+        with warnings.catch_warnings():
+            warnings.simplefilter("ignore")
+            if form == "h1":
+                h = physt.h1(data, edges, weights=wts, **({} if dt is None else {"dtype": dt}))
+            else:
+                h = physt.h1(None, edges, **({} if dt is None else {"dtype": dt}))
+                h.fill_n(data, weights=wts)
+    except (OverflowError, ValueError) as ex:
+        is_int = dt in (None, "int64")
+        if not (is_int and not fits_int):
+            rec.fail(monitor="C01.h1.post", op=form, symptom=f"valid input refused: {type(ex).__name__}", diff=["raised"], detail={**desc, "error": str(ex)[:160]})
+        rec.case(desc, is_int and not fits_int, cls=f"big_square/{form}/{dt}/refused")
+        return
+    with attach.quiet():
+        got = np.asarray(h.errors2)
+        kind = np.dtype(h.dtype).kind
+        want = [float(e) for e in exp]
+        if kind in "iu" and not fits_int:
+            rec.fail(monitor="C01.h1.post", op=form, symptom="sums of squared weights that do not fit the integer content type were stored in it (wrapped around)", diff=["errors2"],
+                     detail={**desc, "got": got.tolist(), "expected": want})
+        elif not np.allclose(got.astype(float), want, rtol=1e-12, atol=0):
+            rec.fail(monitor="C01.h1.post", op=form, symptom="errors2 differ from the sums of squared weights", diff=["errors2"], detail={**desc, "got": got.astype(float).tolist(), "expected": want})
+        cont = [float(sum(int(w) for x, w in zip(data, wts) if int(x) == k)) for k in range(nb)]
+        if not np.array_equal(np.asarray(h.frequencies, dtype=float), cont):
+            rec.fail(monitor="C01.h1.post", op=form, symptom="bin contents differ from the weight inside", diff=["frequencies"], detail={**desc, "got": np.asarray(h.frequencies, dtype=float).tolist(), "expected": cont})
+    rec.case(desc, True, cls=f"big_square/{form}/{dt}/{np.dtype(h.dtype)}")
+
+
 def run(ctx):
+    ctx.run_cases(ctx.scale(40, 300), big_square_case, salt="bigsq")
     attach_monitors()
     ctx.run_cases(ctx.scale(700, 6000), one_case)
